@@ -19,7 +19,10 @@ META = {
         "undefined component is max+1 of the SAME component everywhere it is "
         "used, keys are applied left to right with list.sort(reverse=rev) - a "
         "stable primitive - and the container is only permuted in place. "
-        "Sign arithmetic of the direction-aware orders is not decided."),
+        "The sign tricks ARE decided: conditional constant propagation through every sort_defs entry, for each class "
+        "of element (valid N/S/E/W, error / undefined), yields +/- the element's own number resp. +(max+1) of the same "
+        "component. Key functions never read the list being sorted; the key is lower-cased before every case-sensitive "
+        "operation; sort() does not emulate reverse by sort-then-flip; sort_tracts forwards its key unchanged."),
     'families': ['TBL', 'RX-ANCHOR', 'SIB', 'PERM', 'FORWARD', 'DEADPARAM', 'SIB-DEFAULTS'],
 }
 
